@@ -213,8 +213,33 @@ func suiteC01(c *ctx) {
 		}
 		cases = append(cases, cs)
 	}
+	cases = append(cases, tailCases(r, "C01", c.n(70))...)
 	parallelJ(len(cases), func(i int) interface{} { return cases[i] }, func(i int) { checkHistory(c.rep, c.pool, cases[i]) })
 	filterViolations(c.rep, func(o string) bool { return o != "window" && !isFlushOracle(o) })
+}
+
+// tailCases: short inputs whose last bytes repeat an earlier piece, at every accelerated setting: the
+// match ends within the last 0..14 bytes of the match finder's input (its end-of-input exit paths) and
+// its length symbol is the only one of its kind in the block.  One Write + Close, or Write, Flush,
+// Write, Close with the repeat before the Flush.
+func tailCases(r *Rng, prop string, n int) []*WCase {
+	var out []*WCase
+	sets := []Setting{{API: "flate", Level: 2}, {API: "flate", Level: -1}, {API: "flate", Level: 1}, {API: "flate", Level: 2, Win4K: true},
+		{API: "flate", Level: 1, Win4K: true}, {API: "gzip", Level: -1}, {API: "zlib", Level: 2}}
+	for i := 0; i < n; i++ {
+		s := sets[i%len(sets)]
+		m := r.Range(40, 400)
+		d := DataSpec{Gen: "tailrep", Seed: r.U64(), N: m}
+		ops := []Op{{K: "w", N: m}, {K: "c"}}
+		if i%4 == 3 {
+			d2 := 30
+			d.N = m
+			ops = []Op{{K: "w", N: m}, {K: "f"}, {K: "c"}}
+			_ = d2
+		}
+		out = append(out, &WCase{Prop: prop, ID: fmt.Sprintf("%s-t%d", prop, i), Set: s, Datas: []DataSpec{d}, Ops: ops})
+	}
+	return out
 }
 
 func suiteC10(c *ctx) {
@@ -240,6 +265,21 @@ func suiteC10(c *ctx) {
 		cases = append(cases, cs)
 	}
 	cases = append(cases, directedFlushCases(r, "C10", c.n(24))...)
+	// Huffman-only: one data stream, every length in a window around the point where the encoded block
+	// reaches the size of the packers' staging buffer (8176 bytes), then Flush: for one of these
+	// lengths the buffer fills exactly on the block's last symbols
+	{
+		seed := r.U64()
+		gen := r.PickS([]string{"rnd", "rnd", "uni6"})
+		lo := 8100
+		if gen == "uni6" {
+			lo = 10800
+		}
+		for n := lo; n < lo+c.n(110); n++ {
+			cases = append(cases, &WCase{Prop: "C10", ID: fmt.Sprintf("C10-h%d", n), Set: Setting{API: "flate", Level: -2}, Datas: []DataSpec{{Gen: gen, Seed: seed, N: n + 20}},
+				Ops: []Op{{K: "w", N: n}, {K: "f"}, {K: "w", N: 20}, {K: "c"}}})
+		}
+	}
 	parallelJ(len(cases), func(i int) interface{} { return cases[i] }, func(i int) { checkHistoryAPI(c.rep, c.pool, cases[i]) })
 	filterViolations(c.rep, func(o string) bool {
 		return isFlushOracle(o) || o == "panic" || o == "unexpected-error" || o == "stream-after-flush"
